@@ -278,16 +278,17 @@ pub struct WalkCfg {
 /// Independent reference walk from the statement of C02 (lstat/stat/readdir
 /// only). `cwd` is where relative starting points are resolved.
 pub fn ref_walk(cwd: &Path, start: &str, cfg: &WalkCfg, out: &mut RefWalk) {
+    // `shown` is the path as find prints it (lossy for names that are not valid UTF-8, like
+    // find's own output); `real` is the path the system calls get.
     fn walk(
-        cwd: &Path,
+        real: &Path,
         shown: &str,
         depth: usize,
         cfg: &WalkCfg,
         ancestors: &mut Vec<(u64, u64)>,
         out: &mut RefWalk,
     ) {
-        let real: PathBuf = cwd.join(shown);
-        let lst = match fs::symlink_metadata(&real) {
+        let lst = match fs::symlink_metadata(real) {
             Ok(m) => m,
             Err(_) => {
                 // cannot even be examined: diagnostic owed, entry not demanded
@@ -304,7 +305,7 @@ pub fn ref_walk(cwd: &Path, start: &str, cfg: &WalkCfg, out: &mut RefWalk) {
         let in_range = depth >= cfg.mindepth && depth <= cfg.maxdepth;
         let is_link = lst.file_type().is_symlink();
         let st = if is_link && follow_here {
-            match fs::metadata(&real) {
+            match fs::metadata(real) {
                 Ok(m) => {
                     out.followed_links += 1;
                     m
@@ -350,22 +351,14 @@ pub fn ref_walk(cwd: &Path, start: &str, cfg: &WalkCfg, out: &mut RefWalk) {
             out.must.push((shown.to_string(), depth));
         }
         if depth < cfg.maxdepth {
-            match fs::read_dir(&real) {
+            match fs::read_dir(real) {
                 Err(_) => {
                     out.unreadable_dirs += 1;
                     out.diag_owed = true;
                     out.open_below.push(shown.to_string());
-                    if cfg.follow == FollowMode::L && in_range {
-                        // see DESIGN.md: whether a directory that cannot be
-                        // opened is itself evaluated under -L is recorded
-                        // separately by the C02 oracle
-                    }
                 }
                 Ok(rd) => {
-                    let mut names: Vec<String> = rd
-                        .flatten()
-                        .map(|e| e.file_name().to_string_lossy().into_owned())
-                        .collect();
+                    let mut names: Vec<std::ffi::OsString> = rd.flatten().map(|e| e.file_name()).collect();
                     if cfg.sorted {
                         names.sort_by(|a, b| a.as_bytes().cmp(b.as_bytes()));
                     }
@@ -383,7 +376,7 @@ pub fn ref_walk(cwd: &Path, start: &str, cfg: &WalkCfg, out: &mut RefWalk) {
                     } else {
                         ancestors.push(id);
                         for n in names {
-                            walk(cwd, &join_print(shown, &n), depth + 1, cfg, ancestors, out);
+                            walk(&real.join(&n), &join_print(shown, &n.to_string_lossy()), depth + 1, cfg, ancestors, out);
                         }
                         ancestors.pop();
                     }
@@ -395,5 +388,5 @@ pub fn ref_walk(cwd: &Path, start: &str, cfg: &WalkCfg, out: &mut RefWalk) {
         }
     }
     let mut anc = vec![];
-    walk(cwd, start, 0, cfg, &mut anc, out);
+    walk(&cwd.join(start), start, 0, cfg, &mut anc, out);
 }
